@@ -144,6 +144,22 @@ def reinforce_rule(ctx, rule="ALG-reinforce"):
     ck.done()
 
 
+def ndim_case(ctx, ev, ret, p, ndim, who):
+    """The value of an estimator in the situation `the probability parameter has `ndim` dimensions` (scalar site / batched site): the
+    spine conditionals are decided by evaluating their conditions in that situation, whatever comparison they are written with."""
+    from ..absint import Model, Unknown
+    m = Model(evaluator=ev)
+    m.funcs["jax.numpy.ndim"] = lambda x: ndim
+    m.bind(("attr", p, "ndim"), ndim)
+    t = ret
+    try:
+        while t[0] == "ifexp":
+            t = t[2] if m.truth(t[1]) else t[3]
+    except Unknown as e:
+        raise AnalysisError(f"{who}: unrecognised condition {short(t[1], ev)} ({e})")
+    return t
+
+
 def flip_enum_rule(ctx, rule="ALG-flip-enum"):
     ev = adev_ev(ctx)
     dotted = AD + "FlipEnum.prim_jvp_estimate"
@@ -151,17 +167,9 @@ def flip_enum_rule(ctx, rule="ALG-flip-enum"):
     lin = mk_lin(ev, extra=[adev_axioms])
     ck = Checker(ctx, ev, lin, rule, "adev.FlipEnum.prim_jvp_estimate", func_loc(ctx, dotted))
     p, pt = ("idx", PRIM, C(0)), ("idx", TAN, C(0))
-    scalar_c = ("cmp", "==", call(N("jax.numpy.ndim"), p), C(0))
     saw = set()
-    for asg, leaf in spine_cases(s.ret):
-        sc = None
-        for c, v in asg.items():
-            if c == scalar_c:
-                sc = v
-            elif c == ("cmp", ">", call(N("jax.numpy.ndim"), p), C(0)):
-                sc = not v
-            else:
-                raise AnalysisError(f"adev.FlipEnum: unrecognised condition {short(c, ev)}")
+    for sc in (True, False):
+        leaf = ndim_case(ctx, ev, s.ret, p, 0 if sc else 1, "adev.FlipEnum")
         saw.add(sc)
         leaf = lin.norm(leaf)
         if sc:
@@ -202,15 +210,8 @@ def flip_mvd_rule(ctx, rule="ALG-flip-mvd"):
     p, pt = ("idx", PRIM, C(0)), ("idx", TAN, C(0))
     nd = call(N("jax.numpy.ndim"), p)
     saw = set()
-    for asg, leaf in spine_cases(s.ret):
-        batched = None
-        for c, v in asg.items():
-            if c == ("cmp", ">", nd, C(0)):
-                batched = v
-            elif c == ("cmp", "==", nd, C(0)):
-                batched = not v
-            else:
-                raise AnalysisError(f"adev.FlipMVD: unrecognised condition {short(c, ev)}")
+    for batched in (False, True):
+        leaf = ndim_case(ctx, ev, s.ret, p, 1 if batched else 0, "adev.FlipMVD")
         saw.add(batched)
         leaf = lin.norm(leaf)
         if batched:
@@ -308,8 +309,11 @@ def reparam_rule(ctx, rule="ALG-reparam"):
             continue
         f, prim, tan = j0[1][2]
         p0, p1 = ("idx", PRIM, C(0)), ("idx", PRIM, C(1))
-        ck.eq("jvp primals = the site's parameters in order", prim, ("tuple", (p0, p1)))
-        ck.eq("jvp tangents = the parameters' tangents in the same order", tan, ("tuple", (("idx", TAN, C(0)), ("idx", TAN, C(1)))))
+        # the site has exactly two parameters, so the whole primal/tangent tree and the pair of its two components are the same value
+        if prim != PRIM:
+            ck.eq("jvp primals = the site's parameters in order", prim, ("tuple", (p0, p1)))
+        if tan != TAN:
+            ck.eq("jvp tangents = the parameters' tangents in the same order", tan, ("tuple", (("idx", TAN, C(0)), ("idx", TAN, C(1)))))
         if f[0] != "closure":
             ck.fail("transform is local", f"found {short(f, ev)}")
             ck.done()
@@ -364,246 +368,6 @@ def reparam_rule(ctx, rule="ALG-reparam"):
         ck.done()
 
 
-# ====================================================================== interpreter (EXH/ROLE-C11-interp)
-def interpreter_rule(ctx, rule="ROLE-adev-interpreter"):
-    node, mod = fnode(ctx, AD + "ADEV.eval_jaxpr_adev")
-    construct = "adev.ADEV.eval_jaxpr_adev"
-    fns = {f.name: f for f in ast.walk(node) if isinstance(f, ast.FunctionDef)}
-    failed = False
-
-    def bad(key, what, n=node):
-        nonlocal failed
-        failed = True
-        ctx.bad(rule, construct, key, what, ctx.loc(mod, n))
-
-    for k in ("_sample_pure_kont", "_sample_dual_kont", "_cond_dual_kont"):
-        f = fns.get(k)
-        if f is None:
-            bad(f"{k} present", "continuation closure missing")
-            continue
-        calls = [c for c in ast.walk(f) if isinstance(c, ast.Call) and unp(c.func) in ("eval_jaxpr_iterate_pure", "eval_jaxpr_iterate_dual")]
-        if len(calls) != 1:
-            bad(f"{k}: one continuation evaluation", f"{len(calls)} found", f)
-            continue
-        a = [unp(x) for x in calls[0].args]
-        want_env = "pure_env" if k == "_sample_pure_kont" else "dual_env"
-        want_fn = "eval_jaxpr_iterate_pure" if k == "_sample_pure_kont" else "eval_jaxpr_iterate_dual"
-        if unp(calls[0].func) != want_fn or a[:3] != ["eqns[eqn_idx + 1:]", want_env, "eqn.outvars"]:
-            bad(f"{k}: evaluates the rest of the program (eqns[eqn_idx+1:]) bound to this site's outvars", f"found {unp(calls[0])}", f)
-    src = unp(node)
-    if "dual_env = dual_env.copy()" not in src or "pure_env = _primal_env(dual_env)" not in src:
-        bad("continuations run over a copy of the environment", "environment copy missing")
-    if "adev_prim.prim_jvp_estimate(tuple(dual_tree), (_sample_pure_kont, _sample_dual_kont))" not in src.replace("\n", " ").replace("  ", " "):
-        calls = [c for c in ast.walk(node) if isinstance(c, ast.Call) and unp(c.func) == "adev_prim.prim_jvp_estimate"]
-        if len(calls) != 1 or [unp(a) for a in calls[0].args] != ["tuple(dual_tree)", "(_sample_pure_kont, _sample_dual_kont)"]:
-            bad("site estimator receives (dual args, (kpure, kdual))", f"found {[unp(c) for c in calls]}")
-    # plain sample_p inside an expectation raises
-    ifs = [i for i in ast.walk(node) if isinstance(i, ast.If) and unp(i.test) == "primitive is sample_p"]
-    if not ifs or not any(isinstance(s_, ast.Raise) for s_ in ifs[0].body):
-        bad("plain sample_p inside an expectation raises", "no raise for `primitive is sample_p`")
-    if "primitive is adev_sample_p" not in src:
-        bad("adev_sample_p sites are interpreted", "no branch for adev_sample_p")
-    if "Dual.dual_tree(primals, tangents)" not in src or "tangent_tree = jtu.tree_unflatten(in_tree, flat_tangents)" not in src:
-        bad("site arguments rebuilt as a Dual tree from the equation's operands", "argument reconstruction changed")
-    if not failed:
-        ctx.ok(rule, construct, "continuations = rest of the program over an environment copy, bound to the site's outvars; plain sample_p raises")
-    # custom-JVP bridge
-    ev = mk_ev(ctx)
-    s = summarize(ctx, ev, AD + "invoke_closed_over_jvp")
-    PR_, TG_ = ("param", "primals"), ("param", "tangents")
-    inst = ("idx", PR_, C(0))
-    d = ("call", ("attr", inst, "jvp_estimate"), (("star", call(N(AD + "Dual.dual_tree"), ("idx", PR_, C(1)), ("idx", TG_, C(1)))),), ())
-    want = ("tuple", (pr(d), tg(d)))
-    if s.ret == want:
-        ctx.ok(rule, "adev.invoke_closed_over_jvp", "(primal, tangent) of instance.jvp_estimate(*Dual.dual_tree(primals, tangents))")
-    else:
-        ctx.bad(rule, "adev.invoke_closed_over_jvp", "bridge returns (primal, tangent) of jvp_estimate on the dual tree", f"found {short(s.ret, ev, 300)}", func_loc(ctx, AD + "invoke_closed_over_jvp"))
-    m = ctx.p.modules["genjax.adev"]
-    src = m.src
-    if "invoke_closed_over.defjvp(invoke_closed_over_jvp" not in src or "@jax.custom_jvp\ndef invoke_closed_over" not in src:
-        ctx.bad(rule, "adev.invoke_closed_over", "custom_jvp registered", "defjvp registration missing", "src/genjax/adev/__init__.py")
-    else:
-        ctx.ok(rule, "adev.invoke_closed_over", "custom_jvp with invoke_closed_over_jvp registered")
-    s = summarize(ctx, ev, AD + "invoke_closed_over")
-    if s.ret != ("call", ("attr", ("param", "instance"), "estimate"), (("star", ("param", "args")),), ()):
-        ctx.bad(rule, "adev.invoke_closed_over", "primal = instance.estimate(*args)", f"found {short(s.ret, ev)}", func_loc(ctx, AD + "invoke_closed_over"))
-    s = summarize(ctx, ev, AD + "Expectation.grad_estimate")
-    ok = False
-    for asg, leaf in spine_cases(s.ret):
-        g = [x for x in subterms(leaf) if is_call(x) and is_call(x[1], name="jax.grad")]
-        if g and g[0][2] == (("param", "primals"),) and g[0][1][2][0][0] == "closure":
-            body = ev.apply_closure(g[0][1][2][0], (("param", "pp"),), ())
-            ok = body == call(N(AD + "invoke_closed_over"), SELF, ("param", "pp"))
-    if ok:
-        ctx.ok(rule, "adev.Expectation.grad_estimate", "jax.grad of invoke_closed_over(self, primals)")
-    else:
-        ctx.bad(rule, "adev.Expectation.grad_estimate", "grad of the custom-JVP primal", f"found {short(s.ret, ev, 200)}", func_loc(ctx, AD + "Expectation.grad_estimate"))
-
-
-# ====================================================================== C15
-def default_jvp_path(ctx, rule="ROLE-default-jvp"):
-    node, mod = fnode(ctx, AD + "ADEV.eval_jaxpr_adev")
-    construct = "adev.ADEV.eval_jaxpr_adev[default]"
-    src = unp(node)
-    failed = False
-
-    def bad(key, what):
-        nonlocal failed
-        failed = True
-        ctx.bad(rule, construct, key, what, ctx.loc(mod, node))
-
-    if "jvp = jax_autodiff.primitive_jvps.get(eqn.primitive)" not in src:
-        bad("rule taken from JAX's primitive_jvps for this primitive", "lookup changed")
-    if "canonical_tangents = [_canonicalize_tangent_for_primitive_jvp(p, t) for p, t in zip(flat_primals, flat_tangents)]" not in src:
-        bad("tangents canonicalised (float0 → symbolic Zero) pairwise with their primals", "canonicalisation changed")
-    if "if all((_is_ad_zero(t) for t in canonical_tangents)):" not in src:
-        bad("primal-only shortcut only when ALL tangents are symbolic zeros", "shortcut condition changed")
-    if "primal_outs, tangent_outs = jvp(flat_primals, canonical_tangents, **params)" not in src:
-        bad("jvp(primals, canonical tangents, **params)", "jvp call changed")
-    if "tangent_outs = _instantiate_zero_tangents(tangent_outs)" not in src:
-        bad("symbolic zeros instantiated on the way out", "instantiate missing")
-    if src.count("tangent_outs = jtu.tree_map(_zero_tangent_like, primal_outs)") < 2:
-        bad("fresh zero tangents derived from the primal outputs", "zero tangents not derived from primal_outs")
-    if "Dual.dual_tree(primal_outs, tangent_outs)" not in src:
-        bad("outputs written back as Duals", "write-back changed")
-    if "raise NotImplementedError(msg)" not in src:
-        bad("missing rule raises", "no raise for a primitive without JVP rule")
-    if not failed:
-        ctx.ok(rule, construct, "primitive_jvps dispatch with canonicalised tangents; all-zero shortcut; zeros instantiated")
-    # helper semantics
-    ev = mk_ev(ctx)
-    s = summarize(ctx, ev, AD + "_canonicalize_tangent_for_primitive_jvp")
-    P_, T_ = ("param", "primal"), ("param", "tangent")
-    good = any(x == call(N(AD + "_is_float0_tangent"), T_) for x in subterms(s.ret))
-    for asg, leaf in all_cases(s.ret):
-        isz = asg.get(call(N(AD + "_is_ad_zero"), T_))
-        isf = asg.get(call(N(AD + "_is_float0_tangent"), T_))
-        if isz:
-            want = T_
-        elif isf:
-            want = ("call", N("jax.interpreters.ad.Zero.from_primal_value"), (P_,), ())
-        else:
-            want = T_
-        if isz is None and isf is None:
-            continue
-        if leaf != want:
-            good = False
-    if good:
-        ctx.ok(rule, "adev._canonicalize_tangent_for_primitive_jvp", "Zero stays, float0 → Zero.from_primal_value(primal), else unchanged")
-    else:
-        ctx.bad(rule, "adev._canonicalize_tangent_for_primitive_jvp", "canonicalisation table", f"found {short(s.ret, ev, 200)}", func_loc(ctx, AD + "_canonicalize_tangent_for_primitive_jvp"))
-    s = summarize(ctx, ev, AD + "_zero_tangent_like")
-    want = call(N("jax.interpreters.ad.instantiate_zeros"), call(N("jax.interpreters.ad.Zero.from_primal_value"), ("param", "v")))
-    if s.ret == want:
-        ctx.ok(rule, "adev._zero_tangent_like", "zero with the primal's shape and tangent dtype")
-    else:
-        ctx.bad(rule, "adev._zero_tangent_like", "instantiate_zeros(Zero.from_primal_value(v))", f"found {short(s.ret, ev)}", func_loc(ctx, AD + "_zero_tangent_like"))
-    s = summarize(ctx, ev, AD + "_discrete_zero_tangent")
-    if s.ret == zero_like(("param", "v")):
-        ctx.ok(rule, "adev._discrete_zero_tangent")
-    else:
-        ctx.bad(rule, "adev._discrete_zero_tangent", "forwards to _zero_tangent_like", f"found {short(s.ret, ev)}", func_loc(ctx, AD + "_discrete_zero_tangent"))
-
-
-def zero_tangent_shapes(ctx, rule="SHAPE-zero-tangent"):
-    """Every freshly manufactured zero tangent is derived from its primal."""
-    ev = mk_ev(ctx)
-    dotted = AD + "Expectation.estimate"
-    s = summarize(ctx, ev, dotted)
-    ARGS = ("param", "args")
-    r = s.ret
-    construct = "adev.Expectation.estimate"
-    tms = [x for x in subterms(r) if x[0] == "treemap"]
-    dt = [x for x in subterms(r) if is_call(x, name=AD + "Dual.dual_tree")]
-    if not dt or dt[0][2][0] != ARGS:
-        ctx.bad(rule, construct, "dual tree built over the arguments", f"found {short(r, ev, 200)}", func_loc(ctx, dotted))
-        return
-    tan = dt[0][2][1]
-    if tan[0] == "treemap":
-        body = tan[2]
-        dep = any(x[0] == "leaf" for x in subterms(body))
-        if not dep:
-            ctx.bad(rule, construct, f"zero tangents = tree_map(lambda _: {short(body, ev)}, args)",
-                    "the zero tangent of every argument is the weak-typed Python scalar 0.0 whatever the argument's shape/dtype: shape-sensitive JVP rules "
-                    "(transpose, dot_general, slicing) receive a scalar tangent for an array primal and integer arguments get a float tangent; "
-                    "input: expectation(lambda x: jnp.sum(x.T @ x)).estimate(jnp.ones((2, 3)))", func_loc(ctx, dotted))
-        else:
-            ctx.ok(rule, construct, "zero tangents derived from the primals")
-    else:
-        ctx.ok(rule, construct, short(tan, ev, 100))
-    if not (r[0] == "attr" and r[2] == "primal"):
-        ctx.bad(rule, construct, "returns the primal of jvp_estimate", f"found {short(r, ev, 200)}", func_loc(ctx, dotted))
-    # tree_pure and the final write-back
-    node, mod = fnode(ctx, AD + "Dual.tree_pure")
-    if "return Dual(v, _zero_tangent_like(v))" in unp(node):
-        ctx.ok(rule, "adev.Dual.tree_pure", "lifts with a zero tangent shaped like the value")
-    else:
-        ctx.bad(rule, "adev.Dual.tree_pure", "Dual(v, _zero_tangent_like(v))", "lift changed", ctx.loc(mod, node))
-    node, mod = fnode(ctx, AD + "ADEV.eval_jaxpr_adev")
-    if "out_dual = Dual(out_dual, _zero_tangent_like(out_dual))" in unp(node):
-        ctx.ok(rule, "adev.ADEV.eval_jaxpr_adev (output lift)")
-    else:
-        ctx.bad(rule, "adev.ADEV.eval_jaxpr_adev (output lift)", "non-Dual output lifted with a shaped zero", "lift changed", ctx.loc(mod, node))
-
-
-def cond_rule(ctx, rule="ROLE-adev-cond"):
-    node, mod = fnode(ctx, AD + "ADEV.eval_jaxpr_adev")
-    construct = "adev.ADEV.eval_jaxpr_adev[cond_p]"
-    ifs = [i for i in ast.walk(node) if isinstance(i, ast.If) and unp(i.test) in ("eqn.primitive is jax.lax.cond_p", "primitive is jax.lax.cond_p", "eqn.primitive == jax.lax.cond_p")]
-    if len(ifs) != 1:
-        ctx.bad(rule, construct, "cond_p branch present", f"{len(ifs)} found", ctx.loc(mod, node))
-        return
-    body = ifs[0].body
-    src = "\n".join(unp(s) for s in body)
-    n_rev = src.count("reversed(")
-    conds = [c for s_ in body for c in ast.walk(s_) if isinstance(c, ast.Call) and unp(c.func) == "jax.lax.cond"]
-    failed = False
-
-    def bad(key, what):
-        nonlocal failed
-        failed = True
-        ctx.bad(rule, construct, key, what, ctx.loc(mod, ifs[0]))
-
-    if len(conds) != 1:
-        bad("re-issued as one jax.lax.cond", f"{len(conds)} cond calls")
-    else:
-        a = [unp(x) for x in conds[0].args]
-        if a[0] != "Dual.tree_primal(in_vals[0])":
-            bad("predicate = primal of the first operand", f"found {a[0]}")
-        if n_rev != 1 or "reversed(branch_adev_functions)" not in src or "in_vals[1:]" not in a[-1]:
-            bad("cond_p's (false, true) branch order reversed exactly once for lax.cond(pred, true_fn, false_fn, …)", f"reversed() occurs {n_rev} times; args {a}")
-    if "ADEV.forward_mode(jaxpr_as_fun(fn), _cond_dual_kont)" not in src or "params['branches']" not in src:
-        bad("every branch transformed with the post-cond continuation", "branch transformation changed")
-    if "eqns[eqn_idx + 1:]" not in src or "eqn.outvars" not in src:
-        bad("post-cond continuation = rest of the program bound to the cond's outvars", "continuation changed")
-    if not failed:
-        ctx.ok(rule, construct, "both branches transformed with the post-cond continuation; branch order reversed exactly once")
-    # forward_mode plumbing
-    node, mod = fnode(ctx, AD + "ADEV.forward_mode")
-    src = unp(node)
-    need = ["primals = Dual.tree_primal(duals)", "stage(f)(*primals)", "dual_leaves = Dual.tree_leaves(Dual.tree_pure(duals))",
-            "ADEV.eval_jaxpr_adev(jaxpr, consts, dual_leaves)", "tree_primals, tree_tangents = Dual.tree_unzip(out_duals)", "vs = kont(out_dual_tree)"]
-    miss = [n for n in need if n not in src]
-    if miss:
-        ctx.bad(rule, "adev.ADEV.forward_mode", "stage on primals, interpret on dual leaves, hand the Dual tree to the continuation", f"missing {miss}", ctx.loc(mod, node))
-    else:
-        ctx.ok(rule, "adev.ADEV.forward_mode")
-    ev = mk_ev(ctx)
-    s = summarize(ctx, ev, AD + "Dual.dual_tree")
-    ok = s.ret[0] == "treemap" and s.ret[2] == dual(("leaf", s.ret[1], ("param", "primals")), ("leaf", s.ret[1], ("param", "tangents")))
-    if ok:
-        ctx.ok(rule, "adev.Dual.dual_tree", "leafwise Dual(primal, tangent)")
-    else:
-        ctx.bad(rule, "adev.Dual.dual_tree", "leafwise Dual(primal, tangent)", f"found {short(s.ret, ev)}", func_loc(ctx, AD + "Dual.dual_tree"))
-    for m, fld in (("tree_primal", "primal"), ("tree_tangent", "tangent")):
-        node, mod = fnode(ctx, AD + "Dual." + m)
-        if f"return v.{fld}" in unp(node):
-            ctx.ok(rule, f"adev.Dual.{m}")
-        else:
-            ctx.bad(rule, f"adev.Dual.{m}", f"extracts .{fld}", "changed", ctx.loc(mod, node))
-    node, mod = fnode(ctx, AD + "Dual.tree_unzip")
-    src = unp(node)
-    if "primals = jtu.tree_leaves(Dual.tree_primal(v))" in src and "tangents = jtu.tree_leaves(Dual.tree_tangent(v))" in src and "return (tuple(primals), tuple(tangents))" in src:
-        ctx.ok(rule, "adev.Dual.tree_unzip")
-    else:
-        ctx.bad(rule, "adev.Dual.tree_unzip", "(primal leaves, tangent leaves)", "changed", ctx.loc(mod, node))
+# The CPS interpreter, default-JVP path, cond arm, forward_mode, custom-JVP bridge and Dual helpers are decided in adevi.py
+# (finite-model evaluation); their former syntax-matching versions were removed after benign refactoring R8 showed them firing on
+# behaviour-preserving rewrites.
